@@ -134,7 +134,9 @@ class Constant(Leaf):
 
     def _pretty(self, lean=False):
         _ = lean
-        return f'`{self.literal!s}`'
+        literal = str(self.literal)
+        ticks = '```' if '\n' in literal else '`'
+        return f'{ticks}{literal}{ticks}'
 
     @cached_property
     def _nullable(self) -> bool:
